@@ -324,6 +324,10 @@ class Peer(_Endpoint):
 # ----------------------------------------------------------------------------- listeners
 
 
+class BuggyHandler(Exception):
+    """Raised by an application callback that has a bug of its own (the library must cope, the check ignores it)."""
+
+
 class RecordingListener:
     """ServiceListener that records callbacks into the world log."""
 
@@ -343,6 +347,11 @@ class RecordingListener:
         self._rec("add", zc, type_, name)
         if self.on_add is not None:
             self.on_add(self, zc, type_, name)
+        once = getattr(self, "raise_once", None)
+        if once is not None and name.lower() not in once:
+            # the application's handler fails the first time it sees a service (and works when it is called again)
+            once.add(name.lower())
+            raise BuggyHandler(f"application handler failed for {name}")
 
     def remove_service(self, zc, type_, name):
         self._rec("remove", zc, type_, name)
